@@ -136,3 +136,44 @@ Example C15_clauses_bite :
       (SSet 1, []); (SNone, [])]) in
   map fst (spec_ok (ex_cfg, firstn 3 ex_ops) stale) = [3%N; 9%N].
 Proof. vm_compute. reflexivity. Qed.
+
+(* Non-vacuity for late assignments (the clock moved on while the loop did not run; the assignment is processed
+   before the timers that became due): a change held back until 2000 ms meets a further change at 2500 ms - the
+   pending event absorbs it and the overdue timer sends ONE event with the latest value; a late assignment to
+   another variable while the timer of variable 0 is overdue gives two triggers and two fan-outs in one run; a
+   late assignment inside the running interval is held back. *)
+Example C15_late_assignment :
+  let ex_cfg : cfg :=
+    [{| d_ev := true; d_rate := 2000; d_def := Some 0%N; d_max := None |};
+     {| d_ev := true; d_rate := 0; d_def := None; d_max := None |}] in
+  let ex_ops : list op :=
+    [OSub (Some 1%N) (TSec 30 5) SAbsent; OSet 0 1; OLate 2500 0 2; OSet 0 3; OLate 2000 1 7; OLate 100 0 4] in
+  in_domain (ex_cfg, ex_ops) = true /\
+  map (fun ob => (fst ob, map (fun r => (r_t r, r_trig r, map (fun n => (n_sid n, n_seq n, n_vals n)) (r_notes r))) (snd ob)))
+      (snd (model_run (ex_cfg, ex_ops))) =
+  [(SResp 200 (Some 0%N) (Some 30) true, [(0, [], [(0%N, 0%N, [(0%nat, Some 0%N); (1%nat, None)])])]);
+   (SSet 1, []);
+   (SSet 1, [(2500, [0%nat], [(0%N, 1%N, [(0%nat, Some 2%N); (1%nat, None)])])]);
+   (SSet 1, []);
+   (SSet 1, [(4500, [1%nat; 0%nat], [(0%N, 2%N, [(0%nat, Some 3%N); (1%nat, Some 7%N)]);
+                                     (0%N, 3%N, [(0%nat, Some 3%N); (1%nat, Some 7%N)])])]);
+   (SSet 1, [])].
+Proof. vm_compute. repeat split; reflexivity. Qed.
+
+(* ... and the clauses bite on it: an observation in which the change past the deadline is evented at once AND again
+   by the overdue timer (two NOTIFY requests for one trigger of the moderated variable) fails clause 4. *)
+Example C15_late_clauses_bite :
+  let ex_cfg : cfg :=
+    [{| d_ev := true; d_rate := 2000; d_def := Some 0%N; d_max := None |};
+     {| d_ev := true; d_rate := 0; d_def := None; d_max := None |}] in
+  let ex_ops : list op := [OSub (Some 1%N) (TSec 30 5) SAbsent; OSet 0 1; OLate 2500 0 2] in
+  let twice : observation :=
+    ([{| r_t := 0; r_trig := [0%nat]; r_notes := [] |}],
+     [(SResp 200 (Some 0%N) (Some 30) true,
+       [{| r_t := 0; r_trig := []; r_notes := [{| n_cb := 1; n_sid := 0; n_seq := 0; n_vals := [(0%nat, Some 0%N); (1%nat, None)] |}] |}]);
+      (SSet 1, []);
+      (SSet 1, [{| r_t := 2500; r_trig := [0%nat];
+                   r_notes := [{| n_cb := 1; n_sid := 0; n_seq := 1; n_vals := [(0%nat, Some 2%N); (1%nat, None)] |};
+                               {| n_cb := 1; n_sid := 0; n_seq := 2; n_vals := [(0%nat, Some 2%N); (1%nat, None)] |}] |}])]) in
+  spec_ok (ex_cfg, ex_ops) twice = [(4%N, 3%N)].
+Proof. vm_compute. reflexivity. Qed.
